@@ -141,7 +141,14 @@ func (index *indexComparison) compareNodeByName(a, b *Node) int {
 	case bIsInt:
 		return 1
 	default:
-		return cmp.Compare(aFeature.RawString(index), bFeature.RawString(index))
+		if c := cmp.Compare(aFeature.RawString(index), bFeature.RawString(index)); c != 0 {
+			return c
+		}
+		// Labels of different types can have the same raw string, for
+		// instance the string label "#D" and the definition #D: compare
+		// the label types too, so that the order of such fields does not
+		// depend on map iteration order.
+		return cmp.Compare(aFeature.Typ(), bFeature.Typ())
 	}
 }
 
